@@ -622,6 +622,26 @@ pub fn c20_extras(first_id: usize, names: &[&str]) -> Vec<(usize, String)> {
     }
     out.push((id, format!("#[derive(::darling::FromDeriveInput)]\n#[darling(supports(struct_named, enum_any))]\npub struct US{id};\n", id = id)));
     id += 1;
+    // receivers produced by a `macro_rules!` macro that takes the type's and the fields' names as arguments: the names
+    // carry the call site's hygiene, the derive attribute the macro's - generated locals and field accesses must still meet
+    for tr in traits.iter() {
+        let attrs = if *tr == "FromMeta" { "" } else { ", attributes(ata)" };
+        out.push((id, format!(
+            "macro_rules! mk_recv{id} {{\n    ($name:ident, $f:ident, $g:ident, $h:ident) => {{\n        #[derive(::darling::{tr})]\n        #[darling(default{attrs})]\n        pub struct $name {{\n            pub $f: u8,\n            #[darling(multiple)] pub $g: ::std::vec::Vec<u8>,\n            #[darling(default)] pub $h: ::core::option::Option<bool>,\n            #[darling(skip)] pub skipped: u8,\n        }}\n        impl ::core::default::Default for $name {{ fn default() -> Self {{ $name {{ $f: 1, $g: ::std::vec::Vec::new(), $h: ::core::option::Option::None, skipped: 0 }} }} }}\n    }};\n}}\nmk_recv{id}!(MR{id}, {a}, {b}, {c});\n",
+            id = id, tr = tr, attrs = attrs, a = n(id), b = n(id + 1), c = n(id + 2)
+        )));
+        id += 1;
+    }
+    out.push((id, format!(
+        "macro_rules! mk_recv{id} {{\n    ($name:ident, $f:ident) => {{\n        #[derive(::darling::FromDeriveInput)]\n        #[darling(from_ident, attributes(ata))]\n        pub struct $name {{ pub ident: ::darling::export::syn::Ident, pub $f: u8 }}\n        impl ::core::convert::From<::darling::export::syn::Ident> for $name {{ fn from(ident: ::darling::export::syn::Ident) -> Self {{ $name {{ ident, $f: 0 }} }} }}\n    }};\n}}\nmk_recv{id}!(MR{id}, {a});\n",
+        id = id, a = n(id)
+    )));
+    id += 1;
+    out.push((id, format!(
+        "macro_rules! mk_enum{id} {{\n    ($name:ident, $v:ident, $f:ident) => {{\n        #[derive(::darling::FromMeta)]\n        pub enum $name {{ Unit, $v {{ $f: u8, #[darling(default)] other: ::core::option::Option<u8> }} }}\n    }};\n}}\nmk_enum{id}!(ME{id}, Vee, {a});\n",
+        id = id, a = n(id)
+    )));
+    id += 1;
     // hostile names inside struct variants
     let vfields: String = pool.iter().take(12).map(|nm| format!("{}: u8, ", nm)).collect();
     let vmulti: String = pool.iter().skip(12).take(12).map(|nm| format!("#[darling(multiple)] {}: ::std::vec::Vec<u8>, ", nm)).collect();
